@@ -310,15 +310,7 @@ fn main() {
 
     // (2c) extension blocks that are well-formed extension lists (every known extension, alone and in
     //      pairs): the getters must still return the structure's own fields
-    let exts: Vec<Vec<u8>> = cat::known_extensions().into_iter().filter(|w| w.buf.len() < 400).map(|w| w.buf).collect();
-    let mut blocks: Vec<Vec<u8>> = exts.clone();
-    for a in exts.iter().step_by(3) {
-        for b in exts.iter().step_by(5) {
-            let mut x = a.clone();
-            x.extend_from_slice(b);
-            blocks.push(x);
-        }
-    }
+    let blocks: Vec<Vec<u8>> = cat::extension_blocks();
     let nblocks = blocks.len();
     for (bi, block) in blocks.iter().enumerate() {
         for version in [0x0303u16, 0x0301, 0x0304, 0x7f12] {
